@@ -129,3 +129,31 @@ class HashLM:
         if eos:
             tot += self.row(h)[self.nchars]
         return tot, h
+
+
+def make_parsenet(path):
+    """Pointwise TorchScript 'ParseNet': out maps from image channels: ch0 -> ascender height (x*40), ch1 -> descender height (x*20),
+    ch2 -> baseline probability; end-point and separator maps zero. LayoutEngine(model_path=path, device=cpu) appends '.cpu'."""
+    import torch
+
+    class StubParse(torch.nn.Module):
+        def forward(self, x):
+            n, c, h, w = x.shape
+            z = torch.zeros((n, 1, h, w), dtype=x.dtype)
+            return torch.cat([x[:, 0:1] * 40.0, x[:, 1:2] * 20.0, x[:, 2:3], z, z], dim=1), z
+    torch.jit.save(torch.jit.script(StubParse().eval()), path + '.cpu')
+    return path
+
+
+def stroke_image(hlines, vlines, H=600, W=800, asc=12, desc=4, half=8):
+    """image whose channels drive the stub ParseNet: horizontal strokes (y, x0, x1) and vertical strokes (x, y0, y1)"""
+    img = np.zeros((H, W, 3), np.uint8)
+    for y, x0, x1 in hlines:
+        img[y - 2:y + 2, x0:x1, 2] = 255
+        img[y - half:y + half, x0:x1, 0] = int(255 * asc / 40)
+        img[y - half:y + half, x0:x1, 1] = int(255 * desc / 20)
+    for x, y0, y1 in vlines:
+        img[y0:y1, x - 2:x + 2, 2] = 255
+        img[y0:y1, x - half:x + half, 0] = int(255 * asc / 40)
+        img[y0:y1, x - half:x + half, 1] = int(255 * desc / 20)
+    return img
